@@ -14,9 +14,9 @@ from .. import tu
 PROPERTY = "C10"
 
 # frozen tolerance constants (calibrated on the unchanged tree, worst ratio <= ~0.2 over seeds 1..5)
-C_PINV = 128.0      # |x - x*|            <= C_PINV eps cond |b| / sigma_r
+C_PINV = 256.0      # |x - x*|            <= C_PINV eps cond |b| / sigma_r
 C_LSTSQ = 32.0      # |A^T (A x - b)|     <= C_LSTSQ eps (max(m,n)+8) |A| (|A||x| + |b|)
-C_CHOL = 16.0       # |x - A^-1 b|        <= C_CHOL eps (n+4) cond |x*|
+C_CHOL = 32.0       # |x - A^-1 b|        <= C_CHOL eps (n+4) cond |x*|
 C_CG = 16.0         # |b - A x|           <= tol|b| + C_CG eps cond |A| (|x| + |x0|)
 NONPD_RES = 1e-6    # failure clause: a returned x must satisfy |Ax-b| <= 1e-6 (|A||x| + |b|)
 AMBIG = 0.5         # rank-deficient items: sigma_{r+1}(fl(A)) must be <= AMBIG * max(m,n) eps sigma_1
@@ -27,13 +27,13 @@ RULE = (
     "np.random.RandomState into A = U_r diag(s) V_r^T (orthogonal factors = QR of a seeded Gaussian or Householder "
     "products; structures: plain, symmetric indefinite, duplicated / zero-padded columns or rows, zero matrix) and b "
     "(in range, mixed, orthogonal to range, b = A x_true, zero), so x* = V_r S_r^-1 U_r^T b is known by construction. "
-    "PINV (default arguments; hermitian=True on the symmetric structure): |x - x*| <= 128 eps cond |b| / sigma_r "
+    "PINV (default arguments; hermitian=True on the symmetric structure): |x - x*| <= 256 eps cond |b| / sigma_r "
     "(x = 0 exactly for A = 0).  LSTSQ (driver None/gelsy/gelsd/gelss on everything, gels on full-rank A only): "
     "|A^T(Ax-b)| <= 32 eps (max(m,n)+8) |A| (|A||x|+|b|) (any least-squares solution; no condition-number factor). "
-    "cholesky: SPD Q diag(lam) Q^T, cond <= 1e8, batches, upper/lower: |x - Q lam^-1 Q^T b| <= 16 eps (n+4) cond |x*|; "
+    "cholesky: SPD Q diag(lam) Q^T, cond <= 1e8, batches, upper/lower: |x - Q lam^-1 Q^T b| <= 32 eps (n+4) cond |x*|; "
     "failure clause (indefinite with lam_min <= -1e-3 lam_max; exactly singular integer L0 L0^T with a zero on the "
     "diagonal of L0 = exact zero pivot; zero matrix; one non-PD item inside an SPD batch): the call must raise or "
-    "return x with |Ax-b| <= 1e-6 (|A||x|+|b|).  cg: SPD with prescribed spectrum (dense Q lam Q^T or permuted "
+    "return x with |Ax-b| <= max(1e-6, 32 (n+4) eps) (|A||x|+|b|).  cg: SPD with prescribed spectrum (dense Q lam Q^T or permuted "
     "block-diagonal = genuinely sparse), n <= 40, cond <= 1e3, layouts dense/CSR/COO/BSR for A and M (probed once at "
     "import), x0 in {none, random, near, exact, zero}, M in {none, Jacobi, perturbed exact inverse}, tol in "
     "{1e-3,1e-5,1e-8}, |b| = 10^-4..10^4, b (n,) or (n,1), b = eigenvector, b = 0: |b - Ax| <= tol |b| + 16 eps cond "
@@ -43,9 +43,11 @@ RULE = (
     "numpy product) or real-valued (|err| <= 4 eps K max|a| max|b|), all 36 ordered layout pairs of "
     "{dense,COO,CSR,CSC,BSR,BSC} through _sparse_csr_mm plus bsr_bsc_matmul directly: pairs the dispatcher handles "
     "(CSR/CSC x CSR/CSC, BSR x BSC, CSR/CSC/BSR x dense) must return the product (a raise is excused only when "
-    "plain torch.matmul raises for the same operands), every other pair may raise but must not return a wrong "
-    "product.  patterns: ALL sparsity patterns of (1 x k)(k x 1), k <= 6, and (2 x k)(k x 2), k <= 3, block "
-    "matrices with injective power-of-two values (the result identifies the exact set of matched block pairs).  "
+    "plain torch.matmul raises for the same operands), every other pair (and BSR/BSC operands blocked differently "
+    "along the inner dimension) may raise but must not return a wrong or structurally inconsistent product.  "
+    "patterns: ALL sparsity patterns of (1 x k)(k x 1) k <= 6, (2 x k)(k x 2) k <= 3, (3 x 2)(2 x 1), (1 x 2)(2 x 3) "
+    "block matrices with an injective power-of-two value encoding (the result identifies the exact set of matched "
+    "block pairs and their position).  "
     "Non-trivial: rank-deficient or rectangular A, or cond >= 1e4 (pinv/lstsq/cholesky), a failure-clause case "
     "(cholesky), CG with x0 or M, sparse pair with an empty block row/column or stored-block density < 0.3; "
     "distinct = (sub-check, shape class, rank class, cond decade, spectrum, rhs kind, batch, dtype, driver / "
@@ -734,6 +736,24 @@ def _dense_of(Y):
     return Y.to_dense() if Y.layout != torch.strided else Y
 
 
+def _structure_ok(Y):
+    """minimal consistency of a compressed sparse result (what to_dense relies on; unsorted indices are fine)"""
+    if Y.layout not in (torch.sparse_csr, torch.sparse_csc, torch.sparse_bsr, torch.sparse_bsc):
+        return
+    rowwise = Y.layout in (torch.sparse_csr, torch.sparse_bsr)
+    comp = (Y.crow_indices() if rowwise else Y.ccol_indices()).tolist()
+    plain = (Y.col_indices() if rowwise else Y.row_indices()).tolist()
+    vals = Y.values()
+    bshape = tuple(vals.shape[1:]) if vals.ndim == 3 else (1, 1)
+    ncomp = Y.shape[0 if rowwise else 1] // bshape[0 if rowwise else 1]
+    nplain = Y.shape[1 if rowwise else 0] // bshape[1 if rowwise else 0]
+    assert len(comp) == ncomp + 1 and comp[0] == 0, "compressed index array %s for %d block rows/cols" % (comp, ncomp)
+    assert all(a <= b for a, b in zip(comp, comp[1:])), "compressed indices not monotone: %s" % comp
+    assert comp[-1] == len(plain) == vals.shape[0], "nnz mismatch: compressed end %d, %d plain indices, %d value blocks" \
+        % (comp[-1], len(plain), vals.shape[0])
+    assert all(0 <= j < nplain for j in plain), "plain index out of range: %s (limit %d)" % (plain, nplain)
+
+
 def _check_product(rec, Y, An, Bn, integer, dtype, what, tag):
     """compare a returned product with the float64 numpy product of the (dtype-rounded) operands"""
     P = An @ Bn
@@ -742,7 +762,12 @@ def _check_product(rec, Y, An, Bn, integer, dtype, what, tag):
     if not rec.check(tuple(Y.shape) == P.shape, "sparse:shape:" + tag,
                      "%s: result shape %s, dense product %s" % (what, tuple(Y.shape), P.shape)):
         return
-    Yd = tu.npy(_dense_of(Y))
+    try:        # a malformed sparse result (inconsistent index / value arrays) is a wrong product and must not reach to_dense
+        _structure_ok(Y)
+        Yd = tu.npy(_dense_of(Y))
+    except Exception as e:
+        rec.fail("sparse:invalid_result:" + tag, "%s returned a malformed %s tensor: %s" % (what, Y.layout, str(e)[:300]))
+        return
     if integer:
         rec.check(bool(np.array_equal(Yd, P)), "sparse:product:" + tag,
                   lambda: "%s: %d of %d entries differ from the dense product (max |diff| %.3g)"
@@ -771,7 +796,9 @@ def _sparse_case(draw):
             "dtype": draw(st.sampled_from(("float64", "float64", "float32"))),
             "styleA": draw(st.sampled_from(STYLES)), "styleB": draw(st.sampled_from(STYLES)),
             "densA": draw(st.sampled_from(DENS)), "densB": draw(st.sampled_from(DENS)),
-            "zero_prob": draw(st.sampled_from((0.0, 0.0, 0.3))), "seed": draw(st.integers(0, 2 ** 31 - 1))}
+            "zero_prob": draw(st.sampled_from((0.0, 0.0, 0.3))),
+            # bi2 != 0: B uses another blocking (bi2) of the same inner dimension - may raise, must not be wrong
+            "bi2": draw(st.sampled_from((0, 0, 0, 0, 0, 0, 1, 2, 3, 4))), "seed": draw(st.integers(0, 2 ** 31 - 1))}
 
 
 class Sparse(Sub):
@@ -786,9 +813,13 @@ class Sparse(Sub):
         dtype, integer = case["dtype"], bool(case["integer"])
         la, lb = case["la"], case["lb"]
         mA = LS.block_pattern(rs, case["br"], case["bk"], case["densA"], case["styleA"])
-        mB = LS.block_pattern(rs, case["bk"], case["bc"], case["densB"], case["styleB"])
+        K = case["bk"] * case["bi"]
+        bi2 = int(case.get("bi2", 0))
+        reblocked = bool(bi2 and bi2 != case["bi"] and K and K % bi2 == 0)
+        bkB, biB = (K // bi2, bi2) if reblocked else (case["bk"], case["bi"])
+        mB = LS.block_pattern(rs, bkB, case["bc"], case["densB"], case["styleB"])
         vA = LS.block_values(rs, mA, case["bm"], case["bi"], integer, case["zero_prob"])
-        vB = LS.block_values(rs, mB, case["bi"], case["bn"], integer, case["zero_prob"])
+        vB = LS.block_values(rs, mB, biB, case["bn"], integer, case["zero_prob"])
         if not integer:
             vA = torch.tensor(vA, dtype=tu.TD[dtype]).to(torch.float64).numpy()
             vB = torch.tensor(vB, dtype=tu.TD[dtype]).to(torch.float64).numpy()
@@ -797,6 +828,9 @@ class Sparse(Sub):
         SB = _block_tensor(vB, mB, lb, dtype)
         direct = case["api"] == "direct" and (la, lb) == ("bsr", "bsc")
         must = direct or (la, lb) in MUST_RETURN
+        if reblocked and "bsr" in (la, lb) or reblocked and "bsc" in (la, lb):
+            must = False                       # operands blocked differently along the inner dimension
+            rec.label("sparse:reblocked_inner")
         what = "%s(%s %s, %s %s)" % ("bsr_bsc_matmul" if direct else "_sparse_csr_mm", la, tuple(SA.shape), lb, tuple(SB.shape))
         dA = float(mA.mean()) if mA.size else 0.0
         dB = float(mB.mean()) if mB.size else 0.0
@@ -833,7 +867,7 @@ class Sparse(Sub):
 
     def simplify(self, case):
         for key, small in (("dtype", "float64"), ("integer", True), ("zero_prob", 0.0), ("api", "dispatch"),
-                           ("bm", 1), ("bi", 1), ("bn", 1), ("seed", 0)):
+                           ("bi2", 0), ("bm", 1), ("bi", 1), ("bn", 1), ("seed", 0)):
             if case.get(key) != small:
                 yield dict(case, **{key: small})
         for key in ("br", "bk", "bc"):
